@@ -1,4 +1,5 @@
 import GqlVerif.Props.C02
+import GqlVerif.Proofs.CalcVariantsPushed
 /-!
 # C02 — the response items of a generated module are closed and defined once
 
@@ -231,7 +232,7 @@ def VariantStep (c : Ctx) (f : Nat) (pfx : String) (vt : TypeId) (mine : List Va
     ((∃ fid fr, mine = [.spread fid fr] ∧ thisItems = [aliasItem sname fr.name (fragmentIsRecursive c.q fid)]) ∨
      (∃ r, calcVariantSels c f sname pfx vt mine = .ok r ∧
         ((∃ a, r.1 = [] ∧ r.2.2 = [a] ∧ thisItems = a :: r.2.1) ∨
-         ((∀ a, r.1 = [] → r.2.2 = [a] → False) ∧ ∃ extra, r.2.2.mapM (aliasMember c) = .ok extra ∧
+         ((∀ a, pushedAny c.q vt mine = false → r.2.2 = [a] → False) ∧ ∃ extra, r.2.2.mapM (aliasMember c) = .ok extra ∧
             thisItems = renderType c sname (r.1 ++ extra.flatten) [] ++ r.2.1)))))
 
 theorem calcVariants_ok {c : Ctx} {f : Nat} {name pfx : String} {vsels : List VariantSel} {vt : TypeId}
@@ -273,7 +274,8 @@ theorem calcVariants_ok {c : Ctx} {f : Nat} {name pfx : String} {vsels : List Va
       · rename_i a hfs hal
         simp only [pure_bind] at h
         obtain ⟨vs', items', hr, h1, h2⟩ := fin h
-        exact ⟨vname, _, _, vs', items', hvn, hr, h1, h2, .inr ⟨by simp [hm], rfl, .inr ⟨r, hr0, .inl ⟨a, hfs, hal, rfl⟩⟩⟩⟩
+        exact ⟨vname, _, _, vs', items', hvn, hr, h1, h2,
+          .inr ⟨by simp [hm], rfl, .inr ⟨r, hr0, .inl ⟨a, Pushed.pushedAny_false_fields hr0 hfs, hal, rfl⟩⟩⟩⟩
       · rename_i hal
         obtain ⟨extra, hex, h⟩ := bind_ok h
         simp only [pure_bind] at h
